@@ -7,6 +7,8 @@ package storage
 // ---- C12: reservoir trap-all ----
 
 //@ func storageTrapAll(inflowMass, storageInflow, storageOutflow, storageVolume, initialStoredMass, trappedMass, outflowMass) returns (rStored)
+//@   kernel causal-by-ensures
+//@   states initialStoredMass
 //@   noalias
 //@   safety C12
 //@   requires inflowMass.len >= 1 && trappedMass.len == inflowMass.len && outflowMass.len == inflowMass.len
@@ -19,6 +21,8 @@ package storage
 // ---- C12: reservoir dissolved constituent, decay disabled: delegates to the lumped transport ----
 
 //@ func storageDissolvedDecay(inflowMass, storageInflow, storageOutflow, storageVolume, initialStoredMass, deltaT, doStorageDecay, annualReturnInterval, bankFullFlow, medianFloodResidenceTime, decayedMass, outflowMass) returns (rStored)
+//@   kernel
+//@   states initialStoredMass
 //@   noalias
 //@   safety C12
 //@   requires doStorageDecay < 0.5
@@ -33,6 +37,8 @@ package storage
 // ---- C12: reservoir particulate trapping ----
 
 //@ func storageParticulateTrapping(inflowMass, storageInflow, storageOutflow, storageVolume, initialStoredMass, deltaT, reservoirCapacity, reservoirLength, subtractor, multiplier, lengthDischargeFactor, lengthDischargePower, trappedMass, outflowLoad) returns (rStored)
+//@   kernel
+//@   states initialStoredMass
 //@   noalias
 //@   safety C12
 //@   requires inflowMass.len == storageInflow.len && inflowMass.len == storageOutflow.len && inflowMass.len == storageVolume.len && inflowMass.len == trappedMass.len && inflowMass.len == outflowLoad.len
@@ -51,6 +57,8 @@ package storage
 // (rain/evaporation accumulators in m^3), volume >= 0 and 0 <= timeRemaining <= deltaT.
 
 //@ func storageWaterBalance(rainfallTS, petTS, inflowTS, demandTS, targetMinimumVolume, targetMinimumCapacity, initialVolume, initialLevel, initialArea, deltaT, nLVA, levels, volumes, areas, minRelease, maxRelease, volumeTS, outflowTS, rainfallVolume, evaporationVolume) returns (volume, level, area)
+//@   kernel
+//@   states initialVolume, initialLevel, initialArea
 //@   noalias
 //@   panics allowed
 //@   tables levels, volumes, areas, minRelease, maxRelease
